@@ -13,24 +13,35 @@ import (
 // engine). The lexer item-set construction keys its items by such text. Anything else falls
 // back to the opaque stubs.
 
+// fmtStringer stands for a value with a String/Error method: like fmt, the method is run (by
+// the engine) only for the verbs that are valid for strings.
 type fmtStringer struct {
-	s string
-	n int64
-	i bool
+	call func() (string, bool)
+	fail *bool
+	n    int64
+	i    bool
 }
 
 func (f fmtStringer) Format(st fmt.State, verb rune) {
 	switch verb {
-	case 'd', 'x', 'c', 'U', 'o', 'b':
+	case 'd', 'c', 'U', 'o', 'b':
 		if f.i {
 			fmt.Fprintf(st, "%"+string(verb), f.n)
 			return
 		}
-	case 'q':
-		fmt.Fprintf(st, "%q", f.s)
+	case 'v', 's', 'q', 'x', 'X':
+		s, ok := f.call()
+		if !ok {
+			*f.fail = true
+			return
+		}
+		if verb == 'v' {
+			verb = 's'
+		}
+		fmt.Fprintf(st, "%"+string(verb), s)
 		return
 	}
-	fmt.Fprint(st, f.s)
+	*f.fail = true
 }
 
 var concreteFmtIntrinsics map[string]func(e *Engine, st *St, args []Value, fn *ssa.Function) (Value, bool)
@@ -64,15 +75,14 @@ func (e *Engine) goValue(st *St, t types.Type, v Value) (interface{}, bool) {
 		if fn == nil {
 			return nil, false
 		}
-		r, ok := e.callStatic(st, fn, []Value{v}, nil, nil).(*SliceV)
-		if !ok {
-			return nil, false
+		out := fmtStringer{fail: &e.fmtFail}
+		out.call = func() (string, bool) {
+			r, ok := e.callStatic(st, fn, []Value{v}, nil, nil).(*SliceV)
+			if !ok {
+				return "", false
+			}
+			return e.ConstStringOf(st, r)
 		}
-		s, ok := e.ConstStringOf(st, r)
-		if !ok {
-			return nil, false
-		}
-		out := fmtStringer{s: s}
 		if w, signed, isInt := intInfo(t); isInt {
 			if c, isT := v.(*T); isT && c.IsConst() {
 				out.i = true
@@ -199,6 +209,8 @@ func init() {
 	sprint := func(kind string) func(e *Engine, st *St, args []Value, fn *ssa.Function) (Value, bool) {
 		return func(e *Engine, st *St, args []Value, fn *ssa.Function) (Value, bool) {
 			var text string
+			e.fmtFail = false
+			defer func() { e.fmtFail = false }()
 			switch kind {
 			case "f":
 				f, ok := e.ConstStringOf(st, args[0].(*SliceV))
@@ -222,6 +234,9 @@ func init() {
 					return nil, false
 				}
 				text = fmt.Sprintln(ops...)
+			}
+			if e.fmtFail {
+				return nil, false
 			}
 			return e.constString(text), true
 		}
